@@ -169,6 +169,25 @@ def check(ctx, replay=None):
     # C09: Model::run_step against the same actions applied one by one outside the model
     # (public action classes, legacy Simulation methods) and disabled-input influence
     compose.part(ctx, pid, replay)
+    if pid == "C17":
+        # pests_from / pests_to of a SINGLE host pool (the path Simulation::move_overpopulated_pests
+        # takes; through Model the multi-host pool clamps first) are exercised by the operation-level
+        # tie: "an arrival establishes min(count, susceptibles)" belongs to C17 as well
+        class PestMoveView:
+            def __init__(self, c):
+                self._c = c
+
+            def __getattr__(self, n):
+                return getattr(self._c, n)
+
+            def violation(self, key, what, case=None, detail=None):
+                m = re.match(r"C0[123]\.([a-z_.]+)\.(pests_to|pests_from)$", key)
+                if m:
+                    self._c.violation("C17.pests.%s.%s" % (m.group(1), m.group(2)), what, case, detail)
+
+            def broke(self, name, detail):
+                pass   # reported by the checks the operation-level tie belongs to
+        hostops.part(PestMoveView(ctx), "C02", replay)
     if pid == "C11":
         # the Mortality action class with FIXED rate and lag (the path Simulation::mortality takes; the
         # model's own mortality is table-driven) is exercised by the compose module: its comparison of
